@@ -638,6 +638,13 @@ func TestC04(t *testing.T) {
 						if end == "eof" && drop && !w.Request && (w.Proto == PGRPCWeb || (w.Proto == PConnect && w.Kind != KUnary)) {
 							batch = append(batch, c04Case{Body: w, Script: memhttp.Script{Cut: off, End: end, WithLast: wl}, FakeTrailers: true})
 						}
+						if end == "eof" && drop && n <= 300 && off < n && !(w.Proto == PConnect && w.Kind == KUnary) {
+							// the same cut under a read limit that every message of the body exceeds: the receiver
+							// is skipping an over-limit message when the body ends inside it
+							if bs, _ := frameBoundaries(w); !bs[off] {
+								batch = append(batch, c04Case{Body: w, Script: memhttp.Script{Cut: off, End: end, WithLast: wl}, DropTrailers: drop, Limit: 2})
+							}
+						}
 						if compressedUnaryConnect(w) {
 							// the same under a read limit of exactly the message's decompressed size
 							if plain, err := Gunzip(w.Body); err == nil && len(plain) >= len(w.Body) {
